@@ -107,16 +107,18 @@ def sidecarPath (d : DCtx) (p : Str) : Str :=
 /-! ### FindInPaths -/
 
 /-- `FindInPaths(config).star_search_simple(search_sids, as_sid=False)`.
-    `searched` = (type, pattern) pairs already globbed, `found` = paths already yielded. -/
+    `searched` = (type, (pattern, search string)) triples already globbed (repaired, D26: the memo
+    also records the search string, since the found Sids are matched against it),
+    `found` = paths already yielded. -/
 def pathsStarGo (d : DCtx) (w : World) (config : Option Str) :
-    List Sid → List (Str × Str) → List Str → Except Err (List Sid)
+    List Sid → List (Str × Str × Str) → List Str → Except Err (List Sid)
   | [], _, _ => .ok []
   | s :: rest, searched, found =>
     match d.ctx.sidPath config s with
     | .error e => .error e
     | .ok p =>
       let pattern := p.getD ['N','o','n','e']
-      if searched.contains (s.type, pattern) then pathsStarGo d w config rest searched found else
+      if searched.contains (s.type, pattern, s.string) then pathsStarGo d w config rest searched found else
       let step := (w.glob pattern).foldl (fun (acc : Except Err (List Sid × List Str)) path =>
         match acc with
         | .error e => .error e
@@ -138,7 +140,7 @@ def pathsStarGo (d : DCtx) (w : World) (config : Option Str) :
       match step with
       | .error e => .error e
       | .ok (out, found) =>
-        match pathsStarGo d w config rest (searched ++ [(s.type, pattern)]) found with
+        match pathsStarGo d w config rest (searched ++ [(s.type, pattern, s.string)]) found with
         | .error e => .error e
         | .ok more => .ok (out ++ more)
 
